@@ -296,10 +296,10 @@ def _strip(t):
 
 
 def _is_max_of(t, colname):
-    a = t.single_atom()
-    if a is None or a[0] != "mcall" or a[2] != "max":
+    op = q.reduction_of(t, "max")
+    if op is None:
         return False
-    s_ = a[1].single_atom()
+    s_ = op.single_atom()
     return s_ is not None and s_[0] == "sub" and s_[2] == const(colname)
 
 
